@@ -144,7 +144,6 @@ def _maybe_get_type_hints(
         return None
 
 
-@lru_cache()
 def _maybe_get_signature(
     existing: inspect.Signature | None,
     func: Callable[P, R],
